@@ -93,6 +93,7 @@ def run(ctx, rep):
     check_text_union(prog, rep)
     check_thick_segment(prog, rep)
     triangle_collapse(prog, rep)
+    underline_in_box(prog, rep)
     from rules import axis
     axis.run_for(ctx.program("default"), rep, 'R02.6', ['src/primitives/rectangle/styled.rs', 'src/primitives/triangle/styled.rs', 'src/primitives/polyline/styled.rs', 'src/primitives/line/styled.rs', 'src/text', 'src/mono_font', 'src/image'], 'bounding boxes and drawn rectangles are built per axis')
 
@@ -282,6 +283,37 @@ def check_thick_segment(prog, rep):
         pts.add(m["?a"])
         pts.add(m["?b"])
     rep.check(len(pts) == 4, "R02.5", "edges", "ThickSegment::edges must return two lines over four join corners; found %d points" % len(pts), status="undecided", at=edges.span, fn=edges.path)
+    # which corners: a segment runs from where the second edge of its start join starts to where the first edge of its
+    # end join ends, and each edge line stays on its own side (right with right, left with left)
+    from rules.axis import Axis
+    ax = Axis(prog, edges)
+
+    def named(t):
+        names = []
+        while t[0] in ("field", "ref", "deref"):
+            if t[0] == "field":
+                bt = ax.type_of(t[1])
+                a = prog.adts.get(bt["adt"]) if isinstance(bt, dict) and "adt" in bt else None
+                if not a or t[2] >= len(a["variants"][0]["fields"]):
+                    return None
+                names.append(a["variants"][0]["fields"][t[2]]["name"])
+            t = t[1]
+        return ".".join(reversed(names)) if t[0] == "param" else None
+    lines = [(named(m["?a"]), named(m["?b"])) for n, m in find(er, ("call", "*Line::new", "_", ("?a", "?b")))]
+    bad = []
+    want_ends = {"start_join.second_edge_start", "end_join.first_edge_end"}
+    sides = set()
+    for a, b in lines:
+        if a is None or b is None:
+            bad.append("an edge end point is not a corner of a join")
+            continue
+        (ea, sa), (eb, sb) = a.rsplit(".", 1), b.rsplit(".", 1)
+        if sa != sb:
+            bad.append("an edge line runs from a %s corner to a %s corner" % (sa, sb))
+        if {ea, eb} != want_ends:
+            bad.append("the %s edge runs between %s and %s; a segment runs between start_join.second_edge_start and end_join.first_edge_end" % (sa, ea, eb))
+        sides.add(sa)
+    rep.check(not bad and sides == {"left", "right"} and len(lines) == 2, "R02.5", "edges:corners", "ThickSegment::edges: %s" % ("; ".join(sorted(set(bad))[:2]) or "edges found for sides %s" % sorted(sides)), at=edges.span, fn=edges.path)
     ok_all = True
     seen_box = 0
     for lits, ret, path in decisions(ebb):
@@ -388,3 +420,46 @@ def triangle_collapse(prog, rep):
                 bad.append("corner i must be tested against its opposite edge vertices[(i+1)%%3]..vertices[(i+2)%%3]; found %s" % (show(ln[0], maxd=5) if ln else None))
     rep.check(not bad and seen == {"none", "closes", "open"}, "R02.7", "triangle:is_collapsed",
               "the hole test must be existential over the three corners (collapsed iff some corner is degenerate or reaches across its opposite edge): %s" % ("; ".join(sorted(set(bad))[:2]) or "cases seen %s" % sorted(seen)), at=ic.span, fn=ic.path)
+
+
+def underline_in_box(prog, rep):
+    """R02.8 the measured text box covers the underline whenever an underline can be drawn.  draw_decorations paints
+    the underline rectangle iff underline_color.effective_color(text_color) is Some: Custom(c) always, TextColor iff a
+    text colour is set.  So a path of measure_string whose box height leaves the underline out (no
+    underline.offset + underline.height in it) must have established `underline_color is None`, or
+    `underline_color is TextColor` together with `text_color is None`."""
+    from mirq.paths import Paths, Unsupported
+    STYLE = "embedded_graphics::mono_font::mono_text_style::MonoTextStyle"
+    ms = prog.method1(STYLE, "measure_string", "embedded_graphics::text::renderer::TextRenderer")
+    sf = {f["name"]: i for i, f in enumerate(prog.adts[STYLE]["variants"][0]["fields"])}
+    ff = {f["name"]: i for i, f in enumerate(prog.adts[MONOFONT]["variants"][0]["fields"])}
+    me = ("param", 1, "self")
+    ul = ("field", ("field", me, sf["font"]), ff["underline"])
+    try:
+        summs = Paths(prog, inline=lambda g: prog.is_new(g)).of(ms)
+    except Unsupported as e:
+        rep.check(False, "R02.8", "measure_string:underline", "cannot summarise measure_string: %s" % e, status="undecided", at=ms.span, fn=ms.path)
+        return
+    bad, n_with, n_without = [], 0, 0
+    for sm in summs:
+        boxes = [m for n, m in find(sm.ret, ("call", "*Rectangle::new", "_", ("_", "?size")))] if sm.ret is not None else []
+        if not boxes:
+            bad.append("a path returns no Rectangle::new(.., ..) box")
+            continue
+        size = boxes[0]["?size"]
+        covers = any(strip_refs(n) == ul or (n[0] == "field" and strip_refs(n[1]) == ul) for n in walk(size))
+        if covers:
+            n_with += 1
+            continue
+        n_without += 1
+        und = [set(f[2]) for f in sm.facts if f[0] == "variant" and strip_refs(f[1]) == ("field", me, sf["underline_color"])]
+        txt = [set(f[2]) for f in sm.facts if f[0] == "variant" and strip_refs(f[1]) == ("field", me, sf["text_color"])]
+        u = set.intersection(*und) if und else None
+        t = set.intersection(*txt) if txt else None
+        if u is not None and u <= {"None"}:
+            continue
+        if u is not None and u <= {"None", "TextColor"} and t is not None and t <= {"None"}:
+            continue
+        bad.append("the box leaves the underline out on a path where one can be drawn (underline_color %s, text_color %s)" % (sorted(u) if u else "any", sorted(t) if t else "any"))
+    rep.check(not bad and n_with >= 1 and n_without >= 1, "R02.8", "measure_string:underline",
+              "measure_string must include the underline rows whenever draw_decorations can draw an underline: %s" % ("; ".join(sorted(set(bad))[:2]) or "paths with/without underline rows: %d/%d" % (n_with, n_without)), at=ms.span, fn=ms.path)
